@@ -39,7 +39,17 @@ def _work(job):
     for idx in range(lo, hi):
         vals = decode(factors, idx)
         acc.counters['evaluations'] += 1
-        fn(vals, acc)
+        try:
+            fn(vals, acc)
+        except Exception as e:
+            # The case function itself blew up: on the unchanged tree this never
+            # happens (the checks pass), so it means the code under test did
+            # something the oracle did not anticipate (e.g. raised where it
+            # must return). Reported as a violation, with the traceback.
+            import traceback
+            acc.fail('case-raised:%s:%s' % (label, type(e).__name__),
+                     {'case': repr(vals)[:300], 'traceback': traceback.format_exc()[-1500:]},
+                     {'case_raised': repr(vals)[:2000], 'label': label})
     return acc.export()
 
 
